@@ -15,7 +15,7 @@ RULE = ("BFS over histories of <= 5 (quick) / <= 6 (thorough) of add_class(t, pr
         "/ has_class(t) for t in {foo, foobar, foo-x, bar} from 7 initial class values (absent, odd "
         "whitespace, duplicates, tab/newline separated, HTML()); BFS over add_style histories of <= 4 "
         "(quick) / <= 5 over 3 valid and 3 invalid declarations from 2 initial values; css(): every "
-        "ordered keyword selection of size <= 3 over 5 names x 11 values x 2 separators. Non-trivial = "
+        "ordered keyword selection of size <= 3 over 6 names (two of them normalising to the same property) x 11 values x 2 separators. Non-trivial = "
         "history with >= 2 operations of which >= 1 changes the state or must fail.")
 ASSUMPTIONS = [
     "R7 compares whitespace-token lists (class) and ';'-separated declaration lists (style), not raw "
@@ -218,7 +218,7 @@ def style_step(hist):
 
 
 # ----------------------------------------------------------------------- css
-CSS_NAMES = ["font_size", "backgroundColor", "margin_TOP", "x", "X"]
+CSS_NAMES = ["font_size", "backgroundColor", "margin_TOP", "x", "X", "fontSize"]
 CSS_VALUES = ["1px", 3, None, "", "Red #FFF", 0, 0.0, 1, 1.0, True, "url(data:image/png;base64,AA;b)"]
 
 
